@@ -69,6 +69,10 @@ def build_objs(objs, rendering, ego):
             ob = obj3d((o["x"], o["y"], 0.5), yaw=0.3 * i, label=o["label"], score=o["conf"] / 100.0, uuid=uu, vid=i + 1, points=o["pts"],
                        attributes=attrs, frame="map" if rendering.startswith("map") else "base_link", ego=ego)
             ob.semantic_label.name = nm
+            if rendering.endswith(":derived"):
+                from ..build import derive
+
+                ob = derive(ob)
         out.append(ob)
     return out
 
@@ -82,7 +86,7 @@ def replay_filter(arg):
     objs, is_gt, P, out = arg
     egos = pipeline._egos()
     has_pos = any(P[k] for k in ("xmax", "ymax", "dmax", "dmin"))
-    renders = [("base_link", None, None), ("base_link", egos[0], egos[0].transforms()), ("map", egos[1], egos[1].transforms())]
+    renders = [("base_link", None, None), ("base_link", egos[0], egos[0].transforms()), ("map", egos[1], egos[1].transforms()), ("base_link:derived", None, None)]
     if has_pos:
         # a registry that has already served the map->ego direction under another ego pose and then had its pose replaced (what the library
         # itself does when it interpolates an evaluated frame): filtering sees the new pose only
